@@ -23,6 +23,8 @@ impl C11 {
         boot.intercept_output(true).expect("intercept output");
         let _ = boot.set_insn_limit(Some(20_000));
         let _ = boot.set_stack_limit(Some(5_000));
+        // a few global words that blocks may call
+        boot.eval(": gw0 5 ; : gw1 7 ; : gw2 11 ;").expect("global words");
         C11 { seed: a.seed, boot }
     }
 }
@@ -37,6 +39,13 @@ fn literal(c: &Cell) -> Option<String> {
         Cell::Nil => "nil".into(),
         Cell::Flag(b) => format!("{}", b),
         Cell::Int(i) => format!("{}", i),
+        Cell::Real(r) => {
+            let t = format!("{:?}", r);
+            if !r.is_finite() || !t.contains('.') || t.contains('e') {
+                return None;
+            }
+            t
+        }
         Cell::Str(s) => {
             if s.chars().any(|c| c == '"' || c == '\\' || c == '\u{201c}' || c == '\u{201d}' || (c as u32) < 0x20) {
                 return None;
@@ -95,14 +104,19 @@ fn int_expr(rng: &mut Rng, depth: usize) -> String {
 
 fn gen_expr(rng: &mut Rng, k: u64, allow_nested: bool) -> Expr {
     let seq = k % 1000;
-    match rng.below(if allow_nested { 18 } else { 15 }) {
+    match rng.below(if allow_nested { 19 } else { 15 }) {
+        18 => Expr { src: format!("gw{} 1 + gw{} *", seq % 3, (seq + 1) % 3), class: "uses-global-words", consts: vec![] },
         10 => {
             // results that carry tags (formatting tag, user tags): re-emitted with their tags
-            let v = rng.pick_str(&["255", "-7", "\"s\"", "nil", "[ 1 2 ]", "|F0|", "true"]).to_string();
+            let v = rng.pick_str(&["255", "-7", "\"s\"", "nil", "[ 1 2 ]", "|F0|", "true", "1.5", "-0.25", "[ 2.5 ]", "{ 1 \"a\" }"]).to_string();
             let t = rng.pick_str(&["^hex", "^bin", "^{ 1 \"k\" ^}", "^{ [ 2 ] \"t\" \"x\" \"u\" ^}", "^hex ^{ 3 \"k\" ^}", "7 \"k\" insert-tag"]).to_string();
             Expr { src: format!("{} {}", v, t), class: "tagged-value", consts: vec![] }
         }
-        11 => Expr { src: format!("{} ^hex const MT{} MT{}", rng.below(300), seq, seq), class: "tagged-const", consts: vec![format!("MT{}", seq)] },
+        11 => {
+            let v = rng.pick_str(&["255", "17", "1.5", "-2.75", "\"s\"", "[ 1 ]", "nil", "|0F|", "true"]).to_string();
+            let t = rng.pick_str(&["^hex", "^{ 7 \"k\" ^}", "3 \"n\" insert-tag"]).to_string();
+            Expr { src: format!("{} {} const MT{} MT{}", v, t, seq, seq), class: "tagged-const", consts: vec![format!("MT{}", seq)] }
+        }
         12 => Expr { src: format!(": sq{} dup * ; {} const MK{} MK{} sq{} const MK{} MK{} 1 +", seq, rng.range(2, 9), seq, seq, seq, seq, seq), class: "const-redefined", consts: vec![format!("MK{}", seq)] },
         13 => Expr { src: format!("{} const MA{} {} const MB{} : h{} 1 ; {} const MA{} MA{} MB{} +", rng.below(9), seq, rng.below(9), seq, seq, 10 + rng.below(9), seq, seq, seq), class: "const-redefined-2", consts: vec![format!("MA{}", seq), format!("MB{}", seq)] },
         14 => Expr { src: format!(": lw{} local a local b a b - a * ; {} {} lw{}", seq, int_expr(rng, 2), int_expr(rng, 2), seq), class: "local-word-with-locals", consts: vec![] },
@@ -142,7 +156,7 @@ fn submit(xs: &mut Xstate, src: &str, style: usize) -> Result<Result<(), Xerr>, 
     })
 }
 
-const POSITIONS: &[&str] = &["top", "vec", "map-value", "tag-value", "definition", "meta-in-meta", "definition-in-vec", "if-branch", "loop-body"];
+const POSITIONS: &[&str] = &["top", "vec", "map-value", "tag-value", "definition", "meta-in-meta", "definition-in-vec", "if-branch", "loop-body", "definition-with-locals"];
 
 impl C11 {
     fn fail(&self, obs: &mut Obs, idx: u64, class: String, case: String, detail: String) {
@@ -201,6 +215,16 @@ impl C11 {
                 "meta-in-meta" => format!("{} #( {} depth collect #) {}", pre, body, post),
                 "definition-in-vec" => format!("{} : user-{} [ {} ] ; [ user-{} ] {}", pre, idx % 100, body, idx % 100, post),
                 "if-branch" => format!("{} true if {} else 0 then {}", pre, body, post),
+                // the enclosing word has locals named like the words the block itself defines or uses: the block is compiled
+                // in its own scope and must not see them
+                "definition-with-locals" => {
+                    let mut clash: Vec<String> = e.src.split(' ').filter(|t| t.starts_with("mw") || t.starts_with("ma") || t.starts_with("mb") || t.starts_with("sq") || t.starts_with("lw") || t.starts_with("MC") || t.starts_with("MK") || t.starts_with("gw")).map(|t| t.to_string()).collect();
+                    clash.sort();
+                    clash.dedup();
+                    clash.truncate(2);
+                    let decl: String = clash.iter().map(|c| format!("1 local {} ", c)).collect();
+                    format!("{} : user-{} {}2 local ul {} ul drop ; user-{} {}", pre, idx % 100, decl, body, idx % 100, post)
+                }
                 _ => format!("{} 2 0 do {} loop {}", pre, body, post),
             }
         };
